@@ -391,7 +391,7 @@ func (c *MJAccordionElementComponent) renderTitle(w io.StringWriter, titleCompon
 	fontSize := titleComponent.GetAttributeWithDefault(titleComponent, constants.MJMLFontSize)
 	// Only get font-family if explicitly set on title element
 	fontFamily := ""
-	if value := titleComponent.Node.GetAttribute(constants.MJMLFontFamily); value != "" {
+	if value := titleComponent.GetWrittenAttribute(constants.MJMLFontFamily); value != "" {
 		fontFamily = value
 		titleComponent.TrackFontFamily(value)
 	}
@@ -402,9 +402,9 @@ func (c *MJAccordionElementComponent) renderTitle(w io.StringWriter, titleCompon
 	paddingRight := titleComponent.GetAttributeWithDefault(titleComponent, constants.MJMLPaddingRight)
 
 	// Get title-specific attributes
-	backgroundColor := titleComponent.Node.GetAttribute(constants.MJMLBackgroundColor)
-	color := titleComponent.Node.GetAttribute(constants.MJMLColor)
-	cssClass := titleComponent.Node.GetAttribute(constants.MJMLCSSClass)
+	backgroundColor := titleComponent.GetWrittenAttribute(constants.MJMLBackgroundColor)
+	color := titleComponent.GetWrittenAttribute(constants.MJMLColor)
+	cssClass := titleComponent.GetWrittenAttribute(constants.MJMLCSSClass)
 
 	// Get icon position to determine order
 	iconPosition := c.getAttribute("icon-position")
@@ -570,7 +570,7 @@ func (c *MJAccordionElementComponent) renderContent(w io.StringWriter, textCompo
 	fontSize := textComponent.GetAttributeWithDefault(textComponent, constants.MJMLFontSize)
 	// Only get font-family if explicitly set on text element
 	fontFamily := ""
-	if value := textComponent.Node.GetAttribute(constants.MJMLFontFamily); value != "" {
+	if value := textComponent.GetWrittenAttribute(constants.MJMLFontFamily); value != "" {
 		fontFamily = value
 		textComponent.TrackFontFamily(value)
 	}
@@ -582,9 +582,9 @@ func (c *MJAccordionElementComponent) renderContent(w io.StringWriter, textCompo
 	paddingRight := textComponent.GetAttributeWithDefault(textComponent, constants.MJMLPaddingRight)
 
 	// Get text-specific attributes
-	backgroundColor := textComponent.Node.GetAttribute(constants.MJMLBackgroundColor)
-	color := textComponent.Node.GetAttribute(constants.MJMLColor)
-	cssClass := textComponent.Node.GetAttribute(constants.MJMLCSSClass)
+	backgroundColor := textComponent.GetWrittenAttribute(constants.MJMLBackgroundColor)
+	color := textComponent.GetWrittenAttribute(constants.MJMLColor)
+	cssClass := textComponent.GetWrittenAttribute(constants.MJMLCSSClass)
 
 	// Start content section
 	divTag := html.NewHTMLTag("div").AddAttribute(constants.AttrClass, "mj-accordion-content")
@@ -700,13 +700,13 @@ func (c *MJAccordionElementComponent) GetDefaultAttribute(name string) string {
 
 func (c *MJAccordionElementComponent) getAttribute(name string) string {
 	// 1. Check explicit element attribute first
-	if value := c.Node.GetAttribute(name); value != "" {
+	if value := c.GetWrittenAttribute(name); value != "" {
 		return value
 	}
 
 	// 2. Check parent accordion attributes (but not for font-family or css-class)
 	if c.parentAccordion != nil && name != constants.MJMLFontFamily && name != constants.MJMLCSSClass {
-		if value := c.parentAccordion.Node.GetAttribute(name); value != "" {
+		if value := c.parentAccordion.GetWrittenAttribute(name); value != "" {
 			return value
 		}
 	}
